@@ -77,32 +77,41 @@ def _stack_layers(body, what):
     """layers (outermost first) of the Some / None arms of build_default_*_resolver"""
     m = re.search(r"if\s+let\s+Some\(allowed_hosts\)\s*=\s*core\.allowed_network_hosts\.clone\(\)\s*\{(.*?)\}\s*else\s*\{(.*?)\}",
                   body, re.S)
-    if not m:
-        raise TieBroken(f"srcfacts: {what}: no `if let Some(allowed_hosts) = core.allowed_network_hosts` split")
+    if m:
+        arms = list(m.groups())
+    else:
+        # no split on the setting: one stack for both cases (a RestrictedResolver without a list lets everything through)
+        inner = body.strip()
+        inner = inner[1:-1] if inner.startswith("{") and inner.endswith("}") else inner
+        arms = [inner, inner]
     out = []
-    for arm in m.groups():
+    for arm in arms:
         arm = _nocomment(arm)
         lets = dict(re.findall(r"let\s+(?:mut\s+)?(\w+)\s*=\s*([^;]+);", arm))
+        lets = {k: v for k, v in lets.items() if k != "core"}
         r = re.search(r"Arc::new\((.*)\)\s*$", arm.strip(), re.S)
         if not r:
             raise TieBroken(f"srcfacts: {what}: arm does not end in Arc::new(..)")
         e = r.group(1)
         for _ in range(4):
             for k, v in lets.items():
-                e = re.sub(rf"\b{k}\b", v, e)
+                e = re.sub(rf"\b{k}\b", lambda _m: v, e)
         layers = []
         for name in re.findall(r"\b(\w+)::new\(", e):
             if name == "RedirectResolver":
                 layers.append("LRedirect")
             elif name == "RestrictedResolver":
                 layers.append("LRestricted")
+            elif name in ("SyncGenericResolver", "AsyncGenericResolver"):
+                pass
             else:
                 raise TieBroken(f"srcfacts: {what}: unknown wrapper {name}")
         if "LRedirect" in layers and "core.allow_redirects" not in e:
             raise TieBroken(f"srcfacts: {what}: RedirectResolver no longer receives core.allow_redirects")
-        if "LRestricted" in layers and not re.search(r"set_allowed_hosts\(\s*Some\(allowed_hosts\)\s*\)", arm):
-            raise TieBroken(f"srcfacts: {what}: the allow-list is no longer installed with set_allowed_hosts(Some(allowed_hosts))")
-        if not re.search(r"\bclient\b", e):
+        if "LRestricted" in layers and not re.search(
+                r"set_allowed_hosts\(\s*(Some\(allowed_hosts\)|core\.allowed_network_hosts\.clone\(\))\s*\)", arm):
+            raise TieBroken(f"srcfacts: {what}: the allow-list is no longer installed with set_allowed_hosts(..)")
+        if not re.search(r"\b(client|SyncGenericResolver|AsyncGenericResolver)\b", e):
             raise TieBroken(f"srcfacts: {what}: innermost resolver is not the generic client")
         out.append(layers)
     return out
@@ -155,17 +164,17 @@ def gen_facts():
     c = common.src(CONTEXT)
     sync = _stack_layers(common.fn_body(c, r"fn\s+build_default_sync_resolver\s*\(", "build_default_sync_resolver"), "build_default_sync_resolver")
     asyn = _stack_layers(common.fn_body(c, r"fn\s+build_default_async_resolver\s*\(", "build_default_async_resolver"), "build_default_async_resolver")
-    if sync != asyn:
-        raise TieBroken(f"srcfacts: sync and async default resolver stacks differ: {sync} vs {asyn}")
     v = ("(* generated from sdk/src/context.rs on every run — do not edit *)\n"
          "From Coq Require Import List.\nFrom C2PA Require Import Model.StackLayers.\nImport ListNotations.\n"
-         "(* wrappers around the HTTP client in build_default_sync_resolver and build_default_async_resolver\n"
-         "   (identical in both), outermost first *)\n"
-         "Definition layers_with_allow_list : list layer := " + coq_list(sync[0]) + ".\n"
-         "Definition layers_without_allow_list : list layer := " + coq_list(sync[1]) + ".\n")
+         "(* wrappers around the HTTP client, outermost first, read separately from build_default_sync_resolver and\n"
+         "   build_default_async_resolver; [with] = core.allowed_network_hosts is set *)\n"
+         "Definition sync_layers_with_allow_list : list layer := " + coq_list(sync[0]) + ".\n"
+         "Definition sync_layers_without_allow_list : list layer := " + coq_list(sync[1]) + ".\n"
+         "Definition async_layers_with_allow_list : list layer := " + coq_list(asyn[0]) + ".\n"
+         "Definition async_layers_without_allow_list : list layer := " + coq_list(asyn[1]) + ".\n")
     common.write_if_changed(os.path.join(common.COQ, "Generated", "C26_facts.v"), v)
     return {"MAX_REDIRECTS": max_redirects, "dropped_headers": names, "v4_terms": v4, "v6_terms": v6,
-            "v6_unwraps_mapped": unwraps, "layers": sync}
+            "v6_unwraps_mapped": unwraps, "layers_sync": sync, "layers_async": asyn}
 
 
 # ------------------------------------------------------------------------------------------------ Coq encoding
